@@ -12,7 +12,7 @@ LEAN_MODULE = 'Proofs.C09'
 THEOREMS = ['Fsic.C09.' + n for n in [
     'step_ext', 'inv_init', 'inv_step_false_at_witness', 'inv_step_partial', 'inv_history_partial', 'inv_step',
     'inv_history', 'dtype_step', 'dtype_history', 'index_step_prefix', 'failed_assign_unchanged',
-    'failed_add_variable_unchanged', 'conversion_failure_may_write', 'values_is_stack', 'size_eq',
+    'failed_add_variable_unchanged', 'add_variable_refuses_taken_key', 'conversion_failure_may_write', 'values_is_stack', 'size_eq',
     'size_counts_values', 'strict_no_new_attribute', 'strict_existing_names_work', 'strict_add_variable_works',
     'strict_reports_closest', 'strict_values_setter_works', 'strict_values_setter_blocked_at_witness']]
 RULE = ('histories of public operations {add_variable, add_attribute, attribute set, name-key set, positional set, '
@@ -42,7 +42,7 @@ ASSUMPTIONS = ['operands stay inside the alphabet above', 'variable and attribut
                'element count of values" is applied to the linker\'s own part']
 
 META = {
-    "text": "Theorems over the container model M6 for every store, operation, operand and every configuration of the three reflected behaviour switches (Cfg: whole-shape test in __setattr__, names exempt from the strict guard, add_variable checking the attribute list — probed on the code on every run, harness/reflect_container.py): every operation other than a whole-series assignment of a rectangular nested list whose outer length equals the span keeps every series one-dimensional with one element per period (inv_step_partial, hence every history: inv_history_partial, induction on the operation list), and with the whole-shape test every operation does, with no guard (inv_step, inv_history — in force exactly when the reflected switch says the code has that test); the dtype tag of an existing series never changes under any operation or history, without exception (dtype_step, dtype_history); failed single-variable assignments other than element-conversion failures leave the store unchanged; values is the names-by-periods stack in declaration order and size its element count; under strict no assignment extends the attribute list, existing names and add_variable behave as without strict, and a unique closest name is reported. The full invariant is FALSE on the code as it stands: obj.A = [[1,2],[3,4],[5,6]] on a 3-period span makes A two-dimensional (negation proved at that witness, reproduced on the real code, listed as an open known finding). The model is tied to VectorContainer/BaseModel/BaseLinker by comparing outcome class, index, attributes, size, nbytes, values shape/dtype and every element of every series after every operation of exhaustive short and random long histories.",
+    "text": "Theorems over the container model M6 for every store, operation, operand and every configuration of the three reflected behaviour switches (Cfg: whole-shape test in __setattr__, names exempt from the strict guard, add_variable checking the attribute list, add_variable checking the storage key '_' + name against the instance dict — whose key set is part of the model state — probed on the code on every run, harness/reflect_container.py): every operation other than a whole-series assignment of a rectangular nested list whose outer length equals the span keeps every series one-dimensional with one element per period (inv_step_partial, hence every history: inv_history_partial, induction on the operation list), and with the whole-shape test every operation does, with no guard (inv_step, inv_history — in force exactly when the reflected switch says the code has that test); the dtype tag of an existing series never changes under any operation or history, without exception (dtype_step, dtype_history); failed single-variable assignments other than element-conversion failures leave the store unchanged; values is the names-by-periods stack in declaration order and size its element count; under strict no assignment extends the attribute list, existing names and add_variable behave as without strict, and a unique closest name is reported. The full invariant is FALSE on the code as it stands: obj.A = [[1,2],[3,4],[5,6]] on a 3-period span makes A two-dimensional (negation proved at that witness, reproduced on the real code, listed as an open known finding). The model is tied to VectorContainer/BaseModel/BaseLinker by comparing outcome class, index, attributes, size, nbytes, values shape/dtype and every element of every series after every operation of exhaustive short and random long histories.",
     "design_ref": "DESIGN.md §5 M6, §6 C09, §7 row 6",
     "note": "Trusted: Lean kernel; axioms propext/Classical.choice/Quot.sound; the correspondence harness; NumPy's conversion/broadcast behaviour is modelled only for the operand alphabet and validated on generated operands, difflib's notion of closest name and the initial state of model/linker instances are inputs. The invariant is claimed only outside the known finding (nested list with outer length = span length assigned to a whole series).",
     "technique": "Lean 4 proof (invariant + induction over histories) + differential correspondence check after every operation"
@@ -175,6 +175,8 @@ def rand_item(rng, names, n, labels):
     if r < 0.38:
         r2 = rng.random()
         name = nm() if r2 < 0.7 else rng.choice(ATTR_NAMES) if r2 < 0.85 else rng.choice(CLASS_MEMBERS)
+        if rng.random() < 0.04:     # spelled like a variable's storage key (mostly of a variable that does not exist yet)
+            name = '_' + rng.choice(NEW_NAMES + NEW_NAMES + known)
         if name in cc.INTERNAL_NAMES:
             # `obj.span = …`, `obj.index = …`, `obj._attributes = …`, `obj._strict = …` REPLACE the container's own state
             # (they are existing attributes) — not part of the alphabet; `obj.strict = …` is the op `setStrict`
@@ -278,6 +280,9 @@ def core_alphabet():
         {'op': 'setLabel', 'name': 'attributes', 'label': L(2000), 'v': E(1)},
         {'op': 'setLabelSlice', 'name': 'strict', 'a': L(2000), 'b': L(2001), 'step': None, 'v': E(9)},
         {'op': 'addVariable', 'name': 'index', 'v': E(1.0), 'dtype': None},
+        {'op': 'addVariable', 'name': 'attributes', 'v': E(1.0), 'dtype': None},
+        {'op': 'setAttr', 'name': '_K', 'v': E(1)},
+        {'op': 'addVariable', 'name': 'K', 'v': E([1.0, 2.0, 3.0]), 'dtype': None},
         {'op': 'setLabelSlice', 'name': 'A', 'a': L(2000), 'b': L(2001), 'step': None, 'v': E([7, 8])},
         {'op': 'setLabelSlice', 'name': 'B', 'a': L(2000), 'b': None, 'step': 2, 'v': E(2.5)},
         {'op': 'setLabelSlice', 'name': 'B', 'a': L(2000), 'b': None, 'step': None, 'v': E([1, 2])},
@@ -387,11 +392,17 @@ class Oracle:
         if self.broken:
             return
         op = item['op'] if item else None
-        if op == 'addVariable' and item['name'] in cc.CLOBBERING_VARIABLE_NAMES and out == 'ok':
+        if item is not None and self.prev_internal is not None and cc.clobbers(
+                item, out, set(self.prev_internal['keys']), list(before)):
             self.broken = True
-            self.violate('add-variable-internal-name',
-                         f"add_variable({item['name']!r}, ...) succeeded and replaced the container's own "
-                         f"__dict__['_{item['name']}'] ({type(obj.__dict__.get('_' + item['name'])).__name__} now)", k)
+            if op == 'addVariable':
+                self.violate('add-variable-internal-name',
+                             f"add_variable({item['name']!r}, ...) succeeded although __dict__['_{item['name']}'] was "
+                             f"taken; it now holds a {type(obj.__dict__.get('_' + item['name'])).__name__}", k)
+            else:
+                self.violate('attribute-set-storage-key',
+                             f"{op} {item['name']!r} succeeded and replaced the storage of variable {item['name'][1:]!r} "
+                             f"by a {type(obj.__dict__.get(item['name'])).__name__}", k)
             return
         # 1. every series: one-dimensional, one element per period, dtype as created
         for name in obj.index:
@@ -438,6 +449,8 @@ class Oracle:
             return
         # 3. an assignment that cannot fit raises and leaves every series — and the container's own bookkeeping — unchanged
         why = misfit(item, n, before)
+        if why is None and op == 'addVariable' and '_' + item['name'] in self.prev_internal['keys']:
+            why = 'storage-key-taken'       # must raise and leave everything unchanged
         internal = cc.internal_state(obj)
         # a (name, label) / (name, slice) assignment whose name is not a variable but happens to be one of the
         # container's own `__dict__` entries (without the underscore)
@@ -485,7 +498,7 @@ class Oracle:
             if op == 'setAttr' and name in before and scalar_kind(item['v']) in NUMERIC and out != 'ok':
                 self.violate('strict-blocks-existing', f'strict=True: update of existing variable {name} raised {out}', k)
             if (op == 'addVariable' and name not in before and name not in self.prev_attrs
-                    and scalar_kind(item['v']) in NUMERIC
+                    and '_' + name not in self.prev_internal['keys'] and scalar_kind(item['v']) in NUMERIC
                     and item.get('dtype') in (None, 'f', 'i', 'b') and out != 'ok'):
                 self.violate('strict-blocks-add-variable', f'strict=True: add_variable({name!r}, scalar) raised {out}', k)
             if op == 'setValues' and scalar_kind(item['v']) in NUMERIC and out in ('AttributeError', 'NotImplementedError'):
